@@ -143,7 +143,8 @@ Print Assumptions C04_open_intact_refuted.
 
 (* (I refines S, at the level of the public API, across reopenings) every history - create a series in an empty directory, then
    any sequence of session operations (appends accepted or refused, full / bounded / first-n / resampling reads, counts,
-   accessors, with any arguments) and clean close-and-reopen steps (with or without the payload size and the header demanded),
+   accessors, with any arguments), clean close-and-reopen steps (with or without the payload size and the header demanded) and
+   crashes followed by an open (props/C05.v),
    the reopens falling where C04 is proved: any lines for payload sizes >= 4, the marker-word condition nm_sec for 0..3 - run
    on the model of the library is ACCEPTED BY THE JUDGE at every step: every answer is in the allowed set, the files of the
    model are byte for byte the files the judge expects (so no open alters a file), and the judge stays determined *)
